@@ -297,6 +297,53 @@ func TestC05Seq(t *testing.T) {
 			}
 		}
 		maxInd := 0
+		// a directory that grows beyond its direct blocks (more than 256 names), is emptied again - directories do
+		// not shrink when names go - and is removed, or replaced by a RENAME of another empty directory over it
+		nbigdir := 0
+		acts["bigdir"] = func(t *rapid.T) {
+			if cut || nbigdir >= 1 || x.Budget < 200 {
+				t.Skip("once per case")
+			}
+			nbigdir++
+			root := LiveRef(x.M.Root)
+			if x.Mkdir(root, "bigdir") != nil || !x.LastOK {
+				cut = true
+				return
+			}
+			bd := x.M.Root.Children["bigdir"]
+			n := pick(t, []int{240, 260, 300, 600}, "names")
+			x.logf("CREATE %d names in /bigdir, then REMOVE them all", n)
+			api := x.S.API()
+			bad := ""
+			if err := x.call(func() {
+				for i := 0; i < n; i++ {
+					if r := api.NFSPROC3_CREATE(nt.CREATE3args{Where: nt.Diropargs3{Dir: nt.Nfs_fh3{Data: bd.FH}, Name: nt.Filename3(fmt.Sprintf("e%d", i))}}); r.Status != nt.NFS3_OK {
+						bad = fmt.Sprintf("CREATE e%d: status %d", i, r.Status)
+						return
+					}
+				}
+				for i := 0; i < n; i++ {
+					if r := api.NFSPROC3_REMOVE(nt.REMOVE3args{Object: nt.Diropargs3{Dir: nt.Nfs_fh3{Data: bd.FH}, Name: nt.Filename3(fmt.Sprintf("e%d", i))}}); r.Status != nt.NFS3_OK {
+						bad = fmt.Sprintf("REMOVE e%d: status %d", i, r.Status)
+						return
+					}
+				}
+			}); err != nil || bad != "" {
+				cut = true
+				return
+			}
+			x.Budget -= int64(n/32 + 4)
+			St.Class("directories_grown_beyond_their_direct_blocks_emptied_and_removed")
+			if rapid.Bool().Draw(t, "replace") {
+				if x.Mkdir(root, "bigdir2") != nil || x.Rename(root, "bigdir2", root, "bigdir") != nil {
+					cut = true
+					return
+				}
+			}
+			if x.Rmdir(root, "bigdir") != nil {
+				cut = true
+			}
+		}
 		steps := 0
 		acts[""] = func(t *rapid.T) {
 			steps++
